@@ -345,10 +345,11 @@ def space(kind, tier, seed=0):
         # running (or completes in the same tick), other pipelines arrive before / with / after the failure
         algo = kind[7:]
         import itertools as _it
-        for cfg in ((2, 2, 4, False, False), (3, 2, 4, False, False), (2, 1, 8, False, False)):
+        oc_ = algo == "overbook"
+        for cfg in (((1, 4, 8, True, True), (2, 2, 8, True, True), (1, 3, 8, True, True)) if oc_ else ((2, 2, 4, False, False), (3, 2, 4, False, False), (2, 1, 8, False, False))):
             for r1, r2 in _it.product(("s1", "s2", "s3"), ("s1", "s2")):
                 for x in ("s1", "s2"):
-                    for y in ("huge",):
+                    for y in (("huge", "s1", "s3") if oc_ else ("huge",)):
                         for order in ((r1, r2, x, y), (r2, r1, y, x)):
                             base = ("B", 0, "twobranch", order)
                             out.append((algo, cfg, (base,), 1, dict(over=5.0)))
@@ -356,6 +357,22 @@ def space(kind, tier, seed=0):
                                 for oprof in (("s1",), ("s3",)):
                                     out.append((algo, cfg, (base, ("B", oarr, "single", oprof)), 1, dict(over=5.0)))
                                     out.append((algo, cfg, tuple(sorted((("B", oarr, "single", oprof), base), key=lambda c: c[1])), 1, dict(over=5.0)))
+        return out
+    if kind == "capwait:priority-pool":
+        # small pools on which the first retry already reaches half of the pool: the failed job cannot be looked at in the
+        # round its failure comes back (pool full), later arrivals queue behind it, then room appears
+        for cfg in ((2, 3, 3, True, False), (2, 2, 2, True, False), (2, 3, 4, True, False)):
+            nf = cfg[1] - 1
+            for fprof in (("s3",), ("s2",)):
+                for garr in (1,):
+                    for gprof in (("s3",), ("s1",)):
+                        for carr in (2, 3):
+                            for iarr in (2, 3):
+                                for cls in ("Q", "I"):
+                                    lo = "I" if cls == "Q" else "I"
+                                    combo = ((cls, 0, "single", ("over",)),) + tuple((cls, 0, "single", fprof) for _ in range(nf)) + \
+                                            ((cls, garr, "single", gprof),) + tuple(sorted(((cls, carr, "single", ("s1",)), (lo, iarr, "single", ("s1",))), key=lambda c: c[1]))
+                                    out.append(("priority-pool", cfg, combo, 1, dict(over=max(1, int(cfg[2] / 10)) + 0.5)))
         return out
     if kind == "wide:overbook":
         # a wide pipeline is abandoned while one of its containers is still running; other pipelines wait for CPUs
@@ -402,6 +419,7 @@ def space(kind, tier, seed=0):
         return out
     if kind == "naive":
         cfgs = [(p, c, r, m, False) for p in ((1, 2) if q else (1, 2, 3)) for c in ((2,) if q else (1, 2)) for r in (4, 8) for m in (True, False)]
+        cfgs += [(1, 2.5, 8, True, False), (2, 0.5, 4, False, False), (2, 1.5, 6.5, True, False)]    # pools of any size: fractions of a CPU / GB
         for tps in ((1,) if q else (1, 2)):
             profsets = [("s1",), ("s2", "s1"), ("s1", "over"), ("huge",)]
             wl = workloads(tps, (("B",), list(BASE_SHAPES), profsets, (0,)),
